@@ -7,6 +7,7 @@
 
 mod chains;
 mod dens;
+mod recorder;
 mod report;
 mod sched;
 mod script;
